@@ -30,9 +30,20 @@ const FILTERS: [(&str, TruthTableEntry); 3] = [("any", TruthTableEntry::Any), ("
 fn check_bdd_export<S: BDDSymbol>(st: &mut Stats, d: &Rc<BDD<S>>, table: &Tt, names: &[String], fname: &str, filter: TruthTableEntry, case: &dyn Fn() -> Value) {
     st.evals += 1;
     st.bump(&format!("bdd_exports_filter_{}", fname));
+    // one graph object is rendered one to three times; the LAST rendering is judged (an export
+    // is a description of the diagram, whatever was exported before)
+    let renderings = 1 + st.evals % 3;
+    if renderings > 1 {
+        st.bump("graph_objects_rendered_repeatedly");
+    }
     let text = match guarded(|| {
+        let graph = BDDGraph::new(d, filter);
         let mut buf = Vec::new();
-        BDDGraph::new(d, filter).render_dot(&mut buf).map(|_| buf)
+        for _ in 0..renderings {
+            buf.clear();
+            graph.render_dot(&mut buf)?;
+        }
+        Ok::<_, std::io::Error>(buf)
     }) {
         Ok(Ok(b)) => String::from_utf8_lossy(&b).to_string(),
         Ok(Err(e)) => {
@@ -199,9 +210,15 @@ fn check_tree_text(st: &mut Stats, text: &str, origin: &str) {
         }
     };
     let tree = ast_of_engine(&pf.bdd);
+    let renderings = 1 + st.evals % 3;
     let dot_text = match guarded(|| {
+        let graph = SymbolicParseTree::new(&pf.bdd);
         let mut buf = Vec::new();
-        SymbolicParseTree::new(&pf.bdd).render_dot(&mut buf).map(|_| buf)
+        for _ in 0..renderings {
+            buf.clear();
+            graph.render_dot(&mut buf)?;
+        }
+        Ok::<_, std::io::Error>(buf)
     }) {
         Ok(Ok(b)) => String::from_utf8_lossy(&b).to_string(),
         Ok(Err(e)) => {
